@@ -337,4 +337,7 @@ def run(rep, prog, thorough):
     check_loops(rep, runs)
     check_barriers_all_modes(rep, prog)
     check_exits_in_decoders(rep, prog, runs)
+    # R5: a truncated log must run into a failing checked read: the section loop may not stop early on its own
+    from .c01 import check_loop
+    check_loop(rep, prog, pfx="C05.R5-prefix-rejection")
     rep.note("R5 (every proper prefix of a well-formed PEL is rejected) is derived from R1 + C01.R4 (exact consumption), not re-proved here")
